@@ -660,6 +660,10 @@ func stateRules(c *Ctx) {
 		predicateWritesArgument(c, g, short1)
 		// ---- two appends onto one cut of a longer list
 		appendFork(c, g, short1)
+		// ---- ReadLine pieces taken for lines; a buffer flushed again and again; one map for all workers
+		readLinePrefixIgnored(c, g, short1)
+		flushWithoutReset(c, g, short1)
+		goSharedMap(c, g, short1)
 	}
 	// parsers that link features to a local Sequence (shared by C01, C14, C15)
 	switch c.Prop {
@@ -3225,4 +3229,153 @@ func appendFork(c *Ctx, g *ssa.Function, short1 string) {
 		}
 		c.bad("STATE", "append-fork:"+short1, first.Pos(), fmt.Sprintf("%s appends twice onto the same %d-element cut of a %d-element list: the cut has room to spare, so both appends write the list's element %d and the later one replaces what the earlier one added (the two results, and the list, share it)", short1, hi.Int64(), n, hi.Int64()))
 	}
+}
+
+// readLinePrefixIgnored: (*bufio.Reader).ReadLine hands a line that does not fit its buffer over in pieces and
+// says so in its second result; code that never looks at that result takes every piece for a line of its own.
+func readLinePrefixIgnored(c *Ctx, g *ssa.Function, short1 string) {
+	eachInstr(g, func(i ssa.Instruction) {
+		cl, ok := i.(*ssa.Call)
+		if !ok || calleeName(cl) != "(*bufio.Reader).ReadLine" {
+			return
+		}
+		used := false
+		if cl.Referrers() != nil {
+			for _, r := range *cl.Referrers() {
+				if ex, isEx := r.(*ssa.Extract); isEx && ex.Index == 1 && ex.Referrers() != nil {
+					for _, rr := range *ex.Referrers() {
+						if _, isDbg := rr.(*ssa.DebugRef); !isDbg {
+							used = true
+						}
+					}
+				}
+			}
+		}
+		if !used {
+			c.bad("STATE", "readline-prefix:"+short1, cl.Pos(), fmt.Sprintf("%s reads lines with (*bufio.Reader).ReadLine and never looks at its isPrefix result: a line longer than the reader's buffer (4096 bytes by default) arrives in several pieces, and every piece after the first is taken for a new line", short1))
+		}
+	})
+}
+
+// flushWithoutReset: inside a loop a buffer's content is written out (w.Write(buf.Bytes())) while the loop
+// keeps appending to the same buffer, and the buffer is never emptied: everything written so far is written
+// again with the next flush.
+func flushWithoutReset(c *Ctx, g *ssa.Function, short1 string) {
+	eachInstr(g, func(i ssa.Instruction) {
+		a, ok := i.(*ssa.Alloc)
+		if !ok || a.Referrers() == nil {
+			return
+		}
+		tn := tname(deref(a.Type()))
+		if tn != "bytes.Buffer" && tn != "strings.Builder" {
+			return
+		}
+		var appends, snapshots []ssa.Instruction
+		resets := 0
+		other := false
+		for _, r := range *a.Referrers() {
+			ci, isCall := r.(ssa.CallInstruction)
+			if !isCall {
+				if _, isDbg := r.(*ssa.DebugRef); !isDbg {
+					if _, isSt := r.(*ssa.Store); !isSt {
+						other = true
+					}
+				}
+				continue
+			}
+			n := calleeName(ci)
+			switch {
+			case strings.HasSuffix(n, ").Reset") || strings.HasSuffix(n, ").Truncate") || strings.HasSuffix(n, ").WriteTo") || strings.HasSuffix(n, ").Next") || strings.HasSuffix(n, ").Read"):
+				resets++
+			case strings.Contains(n, ").Write"):
+				appends = append(appends, r)
+			case strings.HasSuffix(n, ").Bytes") || strings.HasSuffix(n, ").String"):
+				snapshots = append(snapshots, r)
+			case strings.HasSuffix(n, ").Len") || strings.HasSuffix(n, ").Grow") || strings.HasSuffix(n, ").Cap"):
+			default:
+				other = true
+			}
+		}
+		if resets > 0 || other || len(appends) == 0 {
+			return
+		}
+		for _, sn := range snapshots {
+			h := enclosingLoopHeader(sn.Block())
+			if h == nil {
+				continue
+			}
+			loop := naturalLoopOf(h)
+			appendedInLoop := false
+			for _, ap := range appends {
+				if loop[ap.Block()] {
+					appendedInLoop = true
+				}
+			}
+			if !appendedInLoop {
+				continue
+			}
+			// the snapshot goes to a writer
+			sv, isVal := sn.(ssa.Value)
+			if !isVal || sv.Referrers() == nil {
+				continue
+			}
+			for _, r := range *sv.Referrers() {
+				ci, isCall := r.(ssa.CallInstruction)
+				if !isCall || !loop[r.Block()] {
+					continue
+				}
+				n := calleeName(ci)
+				if strings.Contains(n, ").Write") || strings.HasPrefix(n, "invoke:") && strings.Contains(n, "Write") || n == "io.WriteString" || strings.HasPrefix(n, "fmt.Fprint") {
+					c.bad("STATE", "flush-without-reset:"+short1, r.Pos(), fmt.Sprintf("%s writes the buffer's content out inside a loop that goes on appending to the same buffer, and never empties it: everything written by one flush is written again by the next", short1))
+					return
+				}
+			}
+		}
+	})
+}
+
+// goSharedMap: one map is handed to several goroutines (started in a loop, or by a worker that passes its own
+// parameter on) and the goroutine's function updates it without a lock.
+func goSharedMap(c *Ctx, g *ssa.Function, short1 string) {
+	eachInstr(g, func(i ssa.Instruction) {
+		gi, ok := i.(*ssa.Go)
+		if !ok {
+			return
+		}
+		h := gi.Call.StaticCallee()
+		if h == nil || !inModule(h) || h.Blocks == nil {
+			return
+		}
+		for k, a := range gi.Call.Args {
+			if _, isMap := a.Type().Underlying().(*types.Map); !isMap || k >= len(h.Params) {
+				continue
+			}
+			v := unwrap(a)
+			several := false
+			if p, isP := v.(*ssa.Parameter); isP && h == g && p == g.Params[k] {
+				several = true
+			}
+			if _, isMk := v.(*ssa.MakeMap); isMk && enclosingLoopHeader(gi.Block()) != nil {
+				if mk := v.(*ssa.MakeMap); !naturalLoopOf(enclosingLoopHeader(gi.Block()))[mk.Block()] {
+					several = true // made once outside the loop that starts the goroutines
+				}
+			}
+			if !several {
+				continue
+			}
+			if guardedBy(h) != "" {
+				continue
+			}
+			var upd *ssa.MapUpdate
+			eachInstr(h, func(j ssa.Instruction) {
+				if mu, isMU := j.(*ssa.MapUpdate); isMU && unwrap(mu.Map) == ssa.Value(h.Params[k]) && upd == nil {
+					upd = mu
+				}
+			})
+			if upd != nil {
+				c.bad("STATE", "go-shared-write:"+short1+"."+h.Params[k].Name(), upd.Pos(), fmt.Sprintf("%s starts several goroutines on %s with the same map (%s), and that function updates the map without a lock: concurrent map writes, and each goroutine's decisions depend on what its siblings have entered so far", short1, fname(h), h.Params[k].Name()))
+				return
+			}
+		}
+	})
 }
